@@ -49,8 +49,12 @@ class Ctx:
                 os.remove(old)
             except OSError:
                 pass
-        fs = [f for f in load_findings() if f["property"] == pid]
+        allf = load_findings()
+        fs = [f for f in allf if f["property"] == pid]
         self.open_findings = {f["id"]: f for f in fs if f.get("status") == "open"}
+        # a clause of another property can count for this check too (cross-owned clauses in this property's scenarios):
+        # the listed finding it belongs to is the same defect whichever check meets it
+        self.all_open_findings = {f["id"]: f for f in allf if f.get("status") == "open"}
         self.fixed_findings = {f["id"]: f for f in fs if f.get("status") == "fixed"}
 
     # --- accounting ---------------------------------------------------------------
@@ -79,7 +83,7 @@ class Ctx:
     def deviation(self, dev_id, what, replay_obj):
         """A trace/case that fails a property clause through the named deviation.
         Listed open finding -> KNOWN-FINDING; anything else -> violation."""
-        if dev_id in self.open_findings:
+        if dev_id in self.open_findings or (dev_id is not None and dev_id in self.all_open_findings):
             self.known_hit[dev_id] = self.known_hit.get(dev_id, 0) + 1
             return False
         self.violation(what if dev_id is None else "%s [%s]" % (what, dev_id), replay_obj)
@@ -101,7 +105,7 @@ class Ctx:
     def finish(self):
         wall = time.time() - self.t0
         for fid, n in sorted(self.known_hit.items()):
-            f = self.open_findings[fid]
+            f = self.all_open_findings[fid]
             print("KNOWN-FINDING: property=%s %s (%s; %d cases this run)" % (self.pid, f["what"], fid, n))
         seen = set()
         for what, path in self.violations:
